@@ -95,6 +95,82 @@ func isSignbitOf(v ssa.Value, x ssa.Value) bool {
 	return ssau.Path(c.Call.Args[0]) == ssau.Path(x)
 }
 
+// branchDecidedBy: the block whose If is decided by v, and the successor index taken when v has the
+// value pol, following v through negations, comparisons with a boolean constant and phis (where v is
+// one incoming value). (nil, -1) when v does not reach exactly one such branch.
+func branchDecidedBy(v ssa.Value, pol bool, depth int) (*ssa.BasicBlock, int) {
+	if depth == 0 || v.Referrers() == nil {
+		return nil, -1
+	}
+	var blk *ssa.BasicBlock
+	succ := -1
+	n := 0
+	for _, r := range *v.Referrers() {
+		var b2 *ssa.BasicBlock
+		s2 := -1
+		switch x := r.(type) {
+		case *ssa.If:
+			b2, s2 = x.Block(), map[bool]int{true: 0, false: 1}[pol]
+		case *ssa.UnOp:
+			if x.Op == token.NOT {
+				b2, s2 = branchDecidedBy(x, !pol, depth-1)
+			}
+		case *ssa.Phi:
+			b2, s2 = branchDecidedBy(x, pol, depth-1)
+		case *ssa.BinOp:
+			o, k := x.X, x.Y
+			if _, isC := o.(*ssa.Const); isC {
+				o, k = k, o
+			}
+			kc, isC := k.(*ssa.Const)
+			if o == v && isC && kc.Value != nil && kc.Value.Kind() == constant.Bool && (x.Op == token.EQL || x.Op == token.NEQ) {
+				np := pol
+				if (x.Op == token.EQL) != constant.BoolVal(kc.Value) {
+					np = !pol
+				}
+				b2, s2 = branchDecidedBy(x, np, depth-1)
+			}
+		}
+		if b2 != nil {
+			n++
+			blk, succ = b2, s2
+		}
+	}
+	if n != 1 {
+		return nil, -1
+	}
+	return blk, succ
+}
+
+// feedsBranch: v reaches the condition of an If through negations, phis and
+// comparisons with a boolean constant only.
+func feedsBranch(v ssa.Value, depth int) bool {
+	if depth == 0 || v.Referrers() == nil {
+		return false
+	}
+	for _, r := range *v.Referrers() {
+		switch x := r.(type) {
+		case *ssa.If:
+			return true
+		case *ssa.UnOp:
+			if x.Op == token.NOT && feedsBranch(x, depth-1) {
+				return true
+			}
+		case *ssa.Phi:
+			if feedsBranch(x, depth-1) {
+				return true
+			}
+		case *ssa.BinOp:
+			_, cx := x.X.(*ssa.Const)
+			_, cy := x.Y.(*ssa.Const)
+			if (x.Op == token.EQL || x.Op == token.NEQ) && (cx || cy) && feedsBranch(x, depth-1) {
+				return true
+			}
+		}
+	}
+	return false
+}
+
 // blockTestsOnly: the block computes nothing with an effect and ends in an If
 // whose condition satisfies pred.
 func blockIfCond(b *ssa.BasicBlock) ssa.Value {
@@ -159,6 +235,14 @@ func NumZeroSign(sc Scope, min int) func(p *load.Program) *report.RuleResult {
 							t := b.Succs[si]
 							if tc := blockIfCond(t); tc != nil && isSignbitOf(tc, x) {
 								ok1 = true
+							}
+							// (iii) the value form of "x == 0 && Signbit(x)" (a case of a tagless
+							// switch, an assignment to a bool): the equal edge computes Signbit(x)
+							// and the merged value decides a branch
+							for _, ti := range t.Instrs {
+								if v, isV := ti.(ssa.Value); isV && isSignbitOf(v, x) && feedsBranch(v, 4) {
+									ok1 = true
+								}
 							}
 						}
 					}
@@ -612,8 +696,10 @@ func OrdExactFirst(p *load.Program) *report.RuleResult {
 				}
 				name := p.FuncName(fn)
 				what := sprintf("strings.EqualFold(%s, %s)", describeOperand(c.Call.Args[0]), describeOperand(c.Call.Args[1]))
-				cond := blockIfCond(b)
-				if cond != ssa.Value(c) {
+				// the successor taken when the fold test holds: `if c`, `if !c`, and the value forms
+				// (`true == c`, `a && c` merged in a phi) that a tagless switch case compiles to
+				ifBlock, matchSucc := branchDecidedBy(c, true, 5)
+				if matchSucc < 0 {
 					r.Unknown(name, instrPos(p, c), what, "the result does not directly control a branch")
 					continue
 				}
@@ -647,7 +733,7 @@ func OrdExactFirst(p *load.Program) *report.RuleResult {
 					continue
 				}
 				// immediate return from the match?
-				start := b.Succs[0].Instrs[0]
+				start := ifBlock.Succs[matchSucc].Instrs[0]
 				var hit *ssa.Return
 				if rt, ok := start.(*ssa.Return); ok {
 					hit = rt
